@@ -65,10 +65,13 @@ func c14Judge(k c14Case) *vlib.Failure {
 			}
 		}
 	case "api", "api-after-debug":
-		m, err := cors.NewMiddleware(cors.Config{Origins: []string{"https://a.b"}, RequestHeaders: k.Set})
+		apiCfg := cors.Config{Origins: []string{"https://a.b"}, RequestHeaders: append([]string(nil), k.Set...)}
+		m, err := cors.NewMiddleware(apiCfg)
 		if err != nil {
 			return vlib.Failf("configuration rejected: %v", err)
 		}
+		scribbleConfig(&apiCfg)
+		scribbleConfig(m.Config())
 		inner := &vlib.Noop{}
 		h := m.Wrap(inner)
 		req := vlib.Req{Method: "OPTIONS", Hdr: map[string][]string{"Origin": {"https://a.b"}, "Access-Control-Request-Method": {"GET"}, "Access-Control-Request-Headers": k.Lines}}
@@ -355,11 +358,14 @@ func checkC14(c *vlib.Ctx) (string, string) {
 		if f.long {
 			wa = vlib.NewWords(f.alpha, vlib.Pick(c, 3, 4))
 		}
-		m, err := cors.NewMiddleware(cors.Config{Origins: []string{"https://a.b"}, RequestHeaders: f.set})
+		apiCfg := cors.Config{Origins: []string{"https://a.b"}, RequestHeaders: append([]string(nil), f.set...)}
+		m, err := cors.NewMiddleware(apiCfg)
 		if err != nil {
 			ck.Report(c14Case{f.set, nil, "api"}, vlib.Failf("configuration rejected: %v", err))
 			continue
 		}
+		scribbleConfig(&apiCfg) // the caller's slices and Config()'s result are the caller's to overwrite
+		scribbleConfig(m.Config())
 		h := m.Wrap(http.HandlerFunc(func(http.ResponseWriter, *http.Request) {}))
 		apiTry := func(lines []string) {
 			rec := vlib.NewRec()
